@@ -289,7 +289,7 @@ def r10_2(ctx):
     ctx.analysed(wc)
     cmds = {}
     ci = p.classes_by_mod.get("parse.IMAPCommand")
-    ctx.require(ci, "IMAPCommand enum vanished")
+    ctx.require(ci, "IMAPCommand enum vanished", anchor=True)
     for s in ci.node.body:
         if isinstance(s, ast.Assign) and isinstance(s.value, ast.Constant):
             cmds[s.value.value] = s.targets[0].id
@@ -803,12 +803,12 @@ def r10_7(ctx):
 
 
 def run(ctx):
-    r10_1(ctx)
-    r10_2(ctx)
-    r10_3(ctx)
-    r10_4(ctx)
-    r10_4_units(ctx)
-    r10_5(ctx)
-    r10_7(ctx)
+    ctx.do(r10_1)
+    ctx.do(r10_2)
+    ctx.do(r10_3)
+    ctx.do(r10_4)
+    ctx.do(r10_4_units)
+    ctx.do(r10_5)
+    ctx.do(r10_7)
     for k, v in DISJOINT_EDGES.items():
         ctx.trust(f"frozen instance-disjoint lock edge {k[0]}->{k[1]} in {k[2]}: {v}")
